@@ -109,6 +109,8 @@ def opsig(op):
         return "set_ref.%s" % op[2]
     if op[0] in ("append_dim", "write", "pvalues", "lookup"):
         return "%s.%s" % (op[0], op[2])
+    if op[0] == "delete_dims":
+        return "delete_dims"
     return op[0]
 
 
@@ -298,4 +300,63 @@ def soak_histories():
               ["unlink", G, "data_arrays", "idx", 0],
               ["link", G, "data_arrays", arr("sig")]]
     out.append(h)
+    # no reopen at all: the same handles live through three generations of the entity called "n1"
+    h = []
+    for cyc in range(3):
+        h += [["create", B, "data_arrays", "n1", [[1, 2], [3, 4]], "int16"],
+              ["link", G, "data_arrays", arr("n1")],
+              ["link", T, "references", arr("n1")],
+              ["lookup", G, "data_arrays", arr("n1")],
+              ["lookup", T, "references", arr("n1")],
+              ["create", S1, "sources", "n1"],
+              ["link", G, "sources", S1 + ["sources", "n1"]],
+              ["lookup", G, "sources", S1 + ["sources", "n1"]],
+              ["create_feature", T, "n1", "Untagged"],
+              ["set", arr("n1"), "label", "generation%d" % cyc],
+              ["delete", B, "data_arrays", "name", "n1"],
+              ["delete", S1, "sources", "name", "n1"],
+              ["delete", T, "features", "idx", 1],
+              ["lookup", G, "data_arrays", arr("sig")]]
+    out.append(h)
+    # dimension descriptors appended, all deleted, a refused append, valid appends again - three times over
+    h = []
+    for cyc in range(3):
+        h += [["append_dim", arr("sig"), "set", ["p", "q"]],
+              ["delete_dims", arr("sig")],
+              ["append_dim", arr("sig"), "set", [1, 2]],                 # refused (labels are not strings)
+              ["append_dim", arr("sig"), "sampled", 0.5, "ms", 1.5],
+              ["append_dim", arr("sig"), "range", [3.0, 1.0], "s"],       # refused (ticks descend)
+              ["append_dim", arr("sig"), "range", [1.0, 2.0, 4.0], "s"],
+              ["set", arr("sig") + ["dimensions", 0], "label", "gen%d" % cyc],
+              ["delete_dims", arr("sig")]]
+    h += [["append_dim", arr("sig"), "set", ["a", "b"]], ["append_dim", arr("sig"), "sampled", 2, None, None]]
+    out.append(h)
     return out
+
+
+def soak_two_handles():
+    """one history with an explicit handle set per operation: an entity linked through handle set A is deleted through
+    handle set B, re-created, and linked through A again (and the other way round)"""
+    B = ["blocks", "blk"]
+    G, T = B + ["groups", "grp"], B + ["tags", "tag"]
+    n1 = B + ["data_arrays", "n1"]
+    ops, hs = [], []
+
+    def add(op, h):
+        ops.append(op)
+        hs.append(h)
+    for first, second in (("A", "B"), ("B", "A"), ("A", "B")):
+        add(["create", B, "data_arrays", "n1", [[1, 2], [3, 4]], "int16"], first)
+        add(["link", T, "references", n1], first)
+        add(["link", G, "data_arrays", n1], first)
+        add(["lookup", T, "references", n1], first)
+        add(["delete", B, "data_arrays", "name", "n1"], second)
+        add(["create", B, "data_arrays", "n1", [[1, 2], [3, 4]], "int16"], second)
+        add(["link", T, "references", n1], first)
+        add(["link", G, "data_arrays", n1], first)
+        add(["create_feature", T, "n1", "Untagged"], first)
+        add(["lookup", G, "data_arrays", n1], first)
+        add(["lookup", T, "references", n1], second)
+        add(["delete", B, "data_arrays", "name", "n1"], first)
+        add(["delete", T, "features", "idx", 1], second)
+    return ops, hs
